@@ -209,3 +209,48 @@ def metric_laws_sampling(tier, rng, rep):
             rep.fail("triangle_inequality", f"{dxz} > {dxy} + {dyz}", inp)
         if np.any(np.abs(dxy - Y.distance(X)) > 1e-9 * (1 + np.abs(dxy))):
             rep.fail("symmetry", "d(x,y) != d(y,x)", inp)
+
+
+@bounded(P, "exact_ideal_points", functions=["geometry_tools/hyperbolic.py:Point.coords", "geometry_tools/hyperbolic.py:Point.hyperboloid_coords", "geometry_tools/utils/core.py:normalize",
+                                             "geometry_tools/hyperbolic.py:IdealPoint.from_angle"],
+         note="ideal points whose homogeneous coordinates are exactly lightlike in float64 (rational null vectors, from_angle(0)): round trips through all ordered pairs of models")
+def exact_ideal_points(tier, rng, rep):
+    rep.rule = ("rational null vectors (Pythagorean triples / quadruples, axis points) in dimension 1..3, scaled by +-2^j, and IdealPoint.from_angle at multiples of pi/2; "
+                "all 25 ordered pairs of models (half-space skipped for the half-space point at infinity); the same Point object is read in several models in a row")
+    nulls = {1: [(1, 1), (1, -1)], 2: [(5, 3, 4), (5, -4, 3), (13, 5, -12), (1, 1, 0), (1, 0, -1), (17, -8, -15), (1, -1, 0)],
+             3: [(3, 1, 2, 2), (7, 2, 3, -6), (9, -4, 4, 7), (1, 0, 0, 1), (1, 1, 0, 0), (1, 0, -1, 0)]}
+    models = ["projective", "hyperboloid", "klein", "poincare", "halfspace"]
+    rep.bound = "15 null vectors x 4 scales x 25 model pairs"
+
+    def same(a, b):
+        a, b = np.asarray(a, dtype=float), np.asarray(b, dtype=float)
+        cr = np.outer(a, b)
+        return np.all(np.isfinite(a)) and np.any(a != 0) and np.all(np.abs(cr - cr.T) <= 1e-9 * max(1.0, np.max(np.abs(cr))))
+    cases = [(n, np.array(v, dtype=float) * sc) for n, vs in nulls.items() for v in vs for sc in (1.0, -1.0, 0.25, -8.0)]
+    for k in range(4):
+        cases.append((2, h.IdealPoint.from_angle(k * np.pi / 2 if k != 1 else 0.0).proj_data.copy()))
+    for n, v in cases:
+        at_infinity = abs(v[1] / v[0] - 1) < 1e-12 and np.all(v[2:] == 0)
+        for src in models:
+            for dst in models:
+                if at_infinity and "halfspace" in (src, dst):
+                    continue
+                inp = {"n": n, "null_vector": v.tolist(), "src": src, "dst": dst}
+
+                def body():
+                    P0 = h.Point(v.copy())
+                    c = P0.coords(src)
+                    c2 = h.Point(np.array(c, copy=True), model=src).coords(dst)
+                    back = h.Point(np.array(c2, copy=True), model=dst).proj_data
+                    if not same(back, v):
+                        rep.fail("ideal_round_trip", f"{src} -> {dst}: {np.asarray(back).tolist()}", inp); return
+                    # the object that was read still is the same point, in every model, after the reads
+                    for m in models:
+                        if at_infinity and m == "halfspace":
+                            continue
+                        again = h.Point(np.array(P0.coords(m), copy=True), model=m).proj_data
+                        if not same(again, v):
+                            rep.fail("ideal_point_unchanged_by_reads", f"after reading {src}, then {m}: {np.asarray(again).tolist()}", inp); return
+                with np.errstate(all='ignore'):
+                    rep.attempt("ideal_coords_run", inp, body)
+                rep.case(key=(n, tuple(v.tolist()), src, dst), nontrivial=True, sample=inp if (src, dst) == ("klein", "poincare") and n == 2 and v[0] == 5 else None)
